@@ -323,14 +323,37 @@ enum Mode
     NMODE = 3
 };
 
-static void check_payload(int codec, const Bytes &p, int mode, bool with_empty)
+// a handful of partitions for long payloads (2^(n-1) compositions are out of reach there): whole, first byte split off,
+// halves, last byte split off, cuts at 255 and 256, halves with an empty piece in between
+static void few_partitions(Ctx &c, int entry)
+{
+    size_t n = c.payload->size();
+    run_entry(c, entry, {{0, n}}, false);
+    if (n < 2)
+        return;
+    size_t cuts[] = {1, n / 2, n - 1, 255, 256};
+    for (size_t k : cuts)
+        if (k > 0 && k < n)
+            run_entry(c, entry, {{0, k}, {k, n - k}}, false);
+    run_entry(c, entry, {{0, n / 2}, {n / 2, 0}, {n / 2, n - n / 2}}, true);
+}
+
+enum Parts
+{
+    P_ALL = 0,       // every composition into non-empty pieces
+    P_ALL_EMPTY = 1, // ... and each again with an empty piece at every position
+    P_FEW = 2        // few_partitions (long payloads)
+};
+
+static void check_payload(int codec, const Bytes &p, int mode, int parts)
 {
     Ctx c;
     c.codec = codec;
     c.M = gs::markers(codec);
     c.payload = &p;
     c.cls = input_class(c.M, p);
-    mc::describe("codec=%s payload=%s (%zu bytes, %s) entry group=%s", gs::codec_name(codec), gsref::hex(p).c_str(), p.size(), c.cls,
+    mc::describe("codec=%s payload=%s (%zu bytes, %s) entry group=%s", gs::codec_name(codec),
+                 p.size() <= 32 ? gsref::hex(p).c_str() : (gsref::hex(Bytes(p.begin(), p.begin() + 16)) + "...").c_str(), p.size(), c.cls,
                  mode == M_RAW ? "raw buffers" : mode == M_VEC ? "vector gstuffing(buffer)" : "vector gstuffing_v");
     if (strcmp(c.cls, "plain") != 0 && strcmp(c.cls, "empty") != 0)
         mc::nontrivial();
@@ -338,12 +361,19 @@ static void check_payload(int codec, const Bytes &p, int mode, bool with_empty)
     {
         run_entry(c, gs::RAW, {}, false);
         if (gs::has_entry(codec, gs::RAW_V))
-            all_partitions(c, gs::RAW_V, with_empty);
+        {
+            if (parts == P_FEW)
+                few_partitions(c, gs::RAW_V);
+            else
+                all_partitions(c, gs::RAW_V, parts == P_ALL_EMPTY);
+        }
     }
     else if (mode == M_VEC)
         run_entry(c, gs::VEC, {}, false);
+    else if (parts == P_FEW)
+        few_partitions(c, gs::VEC_V);
     else
-        all_partitions(c, gs::VEC_V, with_empty);
+        all_partitions(c, gs::VEC_V, parts == P_ALL_EMPTY);
     if (c.encodes > 1)
         mc::more_cases(c.encodes - 1, mc::case_has_violation() ? 0 : (strcmp(c.cls, "plain") && strcmp(c.cls, "empty") ? c.encodes - 1 : 0));
     mc::count("encoder_calls", (long)c.encodes);
@@ -409,7 +439,7 @@ MC_INIT
             }
             int mode = mc::choose(nmodes(codec));
             // empty pieces at every position for n <= 5; for n == 6 the 32 compositions only
-            check_payload(codec, p, mode, p.size() <= 5);
+            check_payload(codec, p, mode, p.size() <= 5 ? P_ALL_EMPTY : P_ALL);
         });
         // (b) every 1- and 2-byte payload over 0..255: the CRC trailer takes every value, in particular every marker
         mc::add_check(mc::fmt("all_bytes_len1_len2.%s", gs::codec_name(codec)), [codec] {
@@ -420,7 +450,19 @@ MC_INIT
             if (b1 < 256)
                 p.push_back((uint8_t)b1);
             int mode = mc::choose(nmodes(codec));
-            check_payload(codec, p, mode, true);
+            check_payload(codec, p, mode, P_ALL_EMPTY);
+        });
+        // (c) long payloads, 253..300 bytes: lengths, frame lengths and receiver capacities (n+2, n+9) cross 255/256,
+        //     where a narrowed length or capacity field would wrap
+        mc::add_check(mc::fmt("large_payloads.%s", gs::codec_name(codec)), [codec] {
+            int first = mc::choose(48 * 3);
+            int n = 253 + first / 3, pattern = first % 3;
+            gs::Markers M = gs::markers(codec);
+            Bytes p;
+            for (int i = 0; i < n; i++)
+                p.push_back(pattern == 0 ? (uint8_t)(i * 7 + 1) : pattern == 1 ? (uint8_t)'a' : (i % 3 == 0 ? M.start : i % 3 == 1 ? M.stub : M.stop));
+            int mode = mc::choose(nmodes(codec));
+            check_payload(codec, p, mode, P_FEW);
         });
     }
 }
